@@ -85,6 +85,105 @@ fn proto_of(header: &str, abi: &str) -> Option<String> {
     Some(tool::norm_ws(&out))
 }
 
+
+/// JS: a method returning `Result<T, E>` through memory allocates a return slot and reads `is_ok` from its last byte.
+/// The slot must be Rust's `DiplomatResult<T, E>`: the flag directly behind the `#[repr(C)]` union of the two payloads
+/// (as aligned as the more aligned one, its size rounded up to that), the slot at least as aligned.  The expected
+/// numbers come from the real runtime type, instantiated here over a grid of payload shapes (no pointer-sized
+/// members, so host and wasm32 agree).
+fn js_result_slot_probe(rep: &mut Report) {
+    use diplomat_runtime::DiplomatResult;
+    #[repr(C)] #[derive(Default, Clone, Copy)] struct Tiny { a: u8 }
+    #[repr(C)] #[derive(Default, Clone, Copy)] struct Two { a: u8, b: u8 }
+    #[repr(C)] #[derive(Default, Clone, Copy)] struct Half { a: u16 }
+    #[repr(C)] #[derive(Default, Clone, Copy)] struct Five { a: u8, b: u8, c: u8, d: u8, e: u8 }
+    #[repr(C)] #[derive(Default, Clone, Copy)] struct Four { x: u32 }
+    #[repr(C)] #[derive(Default, Clone, Copy)] struct Six { a: u16, b: u16, c: u16 }
+    #[repr(C)] #[derive(Default, Clone, Copy)] struct Wide { x: u64 }
+    #[repr(C)] #[derive(Default, Clone, Copy)] struct Mix { a: u8, x: u64 }
+    #[repr(C)] #[derive(Default, Clone, Copy)] struct Nine { x: f64, a: u8 }
+    fn lay<T: Default, E: Default>() -> (usize, usize, usize) {
+        let r: DiplomatResult<T, E> = Err::<T, E>(E::default()).into();
+        let base = &r as *const _ as usize;
+        let flag = &r.is_ok as *const bool as usize - base;
+        let out = (flag, std::mem::size_of_val(&r), std::mem::align_of_val(&r));
+        std::mem::forget(r);
+        out
+    }
+    let mut grid: Vec<(&str, &str, (usize, usize, usize))> = vec![];
+    macro_rules! row { ($on:expr, $ot:ty) => {
+        grid.push(($on, "Tiny", lay::<$ot, Tiny>())); grid.push(($on, "Two", lay::<$ot, Two>())); grid.push(($on, "Half", lay::<$ot, Half>()));
+        grid.push(($on, "Five", lay::<$ot, Five>())); grid.push(($on, "Four", lay::<$ot, Four>())); grid.push(($on, "Six", lay::<$ot, Six>()));
+        grid.push(($on, "Wide", lay::<$ot, Wide>())); grid.push(($on, "Mix", lay::<$ot, Mix>())); grid.push(($on, "Nine", lay::<$ot, Nine>()));
+    } }
+    row!("()", ()); row!("u8", u8); row!("i16", i16); row!("u32", u32); row!("f64", f64); row!("bool", bool);
+    row!("Tiny", Tiny); row!("Two", Two); row!("Half", Half); row!("Five", Five); row!("Four", Four); row!("Six", Six); row!("Wide", Wide); row!("Mix", Mix); row!("Nine", Nine);
+    let mut src = String::from("#[diplomat::bridge]\nmod ffi {\n    #[diplomat::out] pub struct Tiny { pub a: u8 }\n    #[diplomat::out] pub struct Two { pub a: u8, pub b: u8 }\n    #[diplomat::out] pub struct Half { pub a: u16 }\n    #[diplomat::out] pub struct Five { pub a: u8, pub b: u8, pub c: u8, pub d: u8, pub e: u8 }\n    #[diplomat::out] pub struct Four { pub x: u32 }\n    #[diplomat::out] pub struct Six { pub a: u16, pub b: u16, pub c: u16 }\n    #[diplomat::out] pub struct Wide { pub x: u64 }\n    #[diplomat::out] pub struct Mix { pub a: u8, pub x: u64 }\n    #[diplomat::out] pub struct Nine { pub x: f64, pub a: u8 }\n    #[diplomat::opaque]\n    pub struct Src;\n    impl Src {\n");
+    for (i, (ok, err, _)) in grid.iter().enumerate() {
+        src += &format!("        pub fn m{i}x(&self) -> Result<{ok}, {err}> {{ unimplemented!() }}\n");
+    }
+    src += "    }\n}\n";
+    for abi in ["legacy", "spec"] {
+        let mut cfg = diplomat_tool::config::Config::default();
+        cfg.set("js.abi", toml::Value::String(abi.into()));
+        let o = crate::tool::run_backend_cfg(&src, "js", cfg);
+        rep.oracle_runs += 1;
+        let Some(text) = o.files.get("Src.mjs") else {
+            rep.oracle_fail("(c10 probe js-result-slot)", "the JS backend does not generate the result grid", json!({"status": o.status()}));
+            return;
+        };
+        for (i, (ok, err, (flag, size, align))) in grid.iter().enumerate() {
+            rep.count("probe:js-result-slot");
+            let Some(at) = text.find(&format!("m{i}x(")) else { continue };
+            let body = &text[at..];
+            let end = body[1..].find("\n    m").map(|e| e + 1).unwrap_or(body.len());
+            let body = &body[..end];
+            let Some(p) = body.find("DiplomatReceiveBuf(wasm, ") else {
+                rep.oracle_fail(&format!("(c10 probe js-result-slot Result<{ok}, {err}> js.abi={abi})"), "no return slot is allocated for a result that Rust returns through memory", json!({"rust_size": size}));
+                continue;
+            };
+            let nums: Vec<usize> = body[p + 25..].split(|c: char| !c.is_ascii_digit()).filter(|x| !x.is_empty()).take(2).filter_map(|x| x.parse().ok()).collect();
+            if nums.len() != 2 { continue; }
+            let (js_size, js_align) = (nums[0], nums[1]);
+            if js_size - 1 != *flag || js_align < *align {
+                rep.oracle_fail(&format!("(c10 probe js-result-slot Result<{ok}, {err}> js.abi={abi})"), "the JS return slot of a result is not Rust's DiplomatResult: is_ok is read from another byte than Rust writes it to, or the slot is less aligned than the value", json!({"js_reads_is_ok_at": js_size - 1, "rust_is_ok_at": flag, "js_slot_size": js_size, "rust_size": size, "js_slot_align": js_align, "rust_align": align}));
+            }
+        }
+    }
+}
+
+
+/// Dart and Kotlin declare one helper record per option / result shape and share it between all functions using
+/// that shape.  In a library that has many shapes whose payloads look alike in the binding's own language (all
+/// integers are `int` in Dart) but differ in width on the wire, every function must still get the record of its own
+/// payload: compared with the C header, per function, by the C07 comparator.
+fn helper_record_probe(rep: &mut Report) {
+    let prims = ["i8", "u16", "i16", "i32", "u32", "i64", "u64", "f32", "f64"];
+    let mut src = String::from("#[diplomat::bridge]\nmod ffi {\n    pub enum Mode { A, B }\n    #[diplomat::opaque]\n    pub struct Src;\n    impl Src {\n");
+    let mut abis = vec![];
+    for (i, p) in prims.iter().enumerate() {
+        src += &format!("        pub fn opt_{p}(&self) -> Option<{p}> {{ unimplemented!() }}\n        pub fn res_{p}(&self) -> Result<{p}, ()> {{ unimplemented!() }}\n        pub fn err_{p}(&self) -> Result<(), {p}> {{ unimplemented!() }}\n");
+        let q = prims[(i + 4) % prims.len()];
+        src += &format!("        pub fn both_{p}(&self) -> Result<{p}, {q}> {{ unimplemented!() }}\n");
+        for k in ["opt", "res", "err", "both"] { abis.push(format!("Src_{k}_{p}")); }
+    }
+    src += "        pub fn opt_mode(&self) -> Option<Mode> { unimplemented!() }\n        pub fn res_mode(&self) -> Result<Mode, i64> { unimplemented!() }\n    }\n}\n";
+    abis.push("Src_opt_mode".into());
+    abis.push("Src_res_mode".into());
+    for backend in ["dart", "kotlin"] {
+        rep.oracle_runs += 1;
+        rep.count("probe:helper-records");
+        match crate::c07::compare_functions(&src, backend, &abis) {
+            Err(e) => rep.notes.push(format!("helper-record probe ({backend}): {e}")),
+            Ok(diffs) => {
+                for (f, pos, c, b) in diffs {
+                    rep.oracle_fail(&format!("(c10 probe helper-records {backend} {f})"), "the option / result record a native declaration uses is not the C function's `{payload, is_ok}` struct", json!({"backend": backend, "function": f, "position": pos, "c": c, "binding": b}));
+                }
+            }
+        }
+    }
+}
+
 pub fn main(args: &[String]) {
     let a = util::parse_args(args);
     let mut rep = Report::new("C10");
@@ -247,5 +346,7 @@ pub fn main(args: &[String]) {
         }
         crate::jsexec::run(&refs, a.seed, true, &mut rep);
     }
+    js_result_slot_probe(&mut rep);
+    helper_record_probe(&mut rep);
     rep.print();
 }
